@@ -3,6 +3,7 @@ package main
 import (
 	"encoding/json"
 	"fmt"
+	"golang.org/x/tools/go/ssa"
 	"os"
 	"path/filepath"
 	"sort"
@@ -178,4 +179,85 @@ func (r *Result) ApplyBaseline(verifDir, rule, what string, perFn map[string][]u
 			}
 		}
 	}
+}
+
+// postReviewContext: fn itself, or a module function it calls statically, is not in the inventory of the reviewed tree
+// (baselines/functions.json): code may have been moved between fn and a helper introduced after the review. Returns the
+// name of that function ("" when everything fn touches was there at review time).
+func (c *Ctx) postReviewContext(fn *ssa.Function) string {
+	if fn == nil {
+		return ""
+	}
+	inv, _ := c.cache["inventory"].(map[string]bool)
+	if inv == nil {
+		inv = reviewedFunctions(verifDirGlobal)
+		if inv == nil {
+			inv = map[string]bool{"<none>": true}
+		}
+		c.cache["inventory"] = inv
+	}
+	if inv["<none>"] {
+		return ""
+	}
+	root := fn
+	for root.Parent() != nil {
+		root = root.Parent()
+	}
+	if !inv[c.Name(root)] && root.Origin() == nil {
+		return c.Name(root)
+	}
+	for _, site := range callsIn(fn) {
+		g := site.Common().StaticCallee()
+		if g == nil || !inModule(fnPkgPath(g)) || g.Parent() != nil {
+			continue
+		}
+		if o := g.Origin(); o != nil {
+			g = o
+		}
+		if !inv[c.Name(g)] {
+			return c.Name(g)
+		}
+	}
+	return ""
+}
+
+// ViolMissing reports that a rule did not find the construct it requires in fn. When fn calls (or is) a function introduced
+// after the review, the construct may simply have moved there: the obligation is then recorded as not decided, with the
+// helper named, instead of as a violation. Deleting the construct without introducing a function is still a violation.
+func (r *Result) ViolMissing(c *Ctx, fn *ssa.Function, rule, construct, pos, detail string) {
+	if h := c.postReviewContext(fn); h != "" {
+		r.Undec(rule, construct, pos, detail+" [not found in "+c.Name(fn)+", which involves "+h+", a function introduced after the review; not decided]")
+		return
+	}
+	r.Viol(rule, construct, pos, detail)
+}
+
+func (r *Result) CheckMissing(c *Ctx, fn *ssa.Function, ok bool, rule, construct, pos, detail string) {
+	if ok {
+		r.Hold(rule, construct, pos, detail)
+		return
+	}
+	r.ViolMissing(c, fn, rule, construct, pos, detail)
+}
+
+// postReviewFunctions: module functions (top level) that are not in the inventory of the reviewed tree.
+func (c *Ctx) postReviewFunctions() []string {
+	if v, ok := c.cache["postreview"].([]string); ok {
+		return v
+	}
+	inv := reviewedFunctions(verifDirGlobal)
+	var out []string
+	if inv != nil {
+		for _, fn := range c.AllFuncs {
+			if fn.Parent() != nil || fn.Origin() != nil || !libPackage(fnPkgPath(fn)) {
+				continue
+			}
+			if !inv[c.Name(fn)] {
+				out = append(out, c.Name(fn))
+			}
+		}
+	}
+	sort.Strings(out)
+	c.cache["postreview"] = out
+	return out
 }
